@@ -27,6 +27,8 @@ var boundedChecks = map[string][]BoundedCheck{
 		Bound: "every set of <= 5 (quick) / <= 6 (thorough) constraints over 4 sites (sources, sinks, flows), every observation order, real Engine vs reference reachability"}},
 	"C07": {{Prop: "C07", Name: "shapes-no-internal-error", Pkg: ".", File: "shapes_no_internal_error_test.go.txt", Run: "TestVerifShapesNoInternalError",
 		Bound: "a fixed list of 32 assignment-target shapes, 5 call shapes of a contracted variadic function and 11 range operand kinds, run through the real analyzer: no INTERNAL diagnostic"}},
+	"C20": {{Prop: "C20", Name: "contracted-call-shapes", Pkg: ".", File: "contracted_call_shapes_test.go.txt", Run: "TestVerifContractedCallShapes",
+		Bound: "5 one-parameter one-result callee bodies x 4 argument shapes (literal nil, nil-valued variable, maybe-nil parameter, non-nil) x 2 layouts (same package, callee in a dependency), run through the real analyzer: a dereference of the result that can panic at run time is reported"}},
 	"C13": {{Prop: "C13", Name: "prettyprint-strip-roundtrip", Pkg: ".", File: "prettyprint_roundtrip_test.go.txt", Run: "TestVerifPrettyPrintRoundTrip",
 		Bound: "all token sequences of length <= 4 (quick) / 5 (thorough) over 11 token kinds (words, `code`, \"paths\", nilability phrases, tabs, newlines, nested quote/backtick mixes)"}},
 }
@@ -66,7 +68,16 @@ func runBounded(L *Loaded, rep *Report, verif string) {
 			if len(tail) > 3000 {
 				tail = tail[len(tail)-3000:]
 			}
-			rep.StructFails = append(rep.StructFails, StructOb{Name: "bounded/" + bc.Name, OK: false, Detail: "bounded check of the real function failed:\n" + tail, Src: src})
+			// a harness may name the failing cases one per line: "VERIF-BOUNDED-FAIL <case-id> :: <what happened>"
+			cases := regexp.MustCompile(`(?m)^\s*(?:\S+: )?VERIF-BOUNDED-FAIL (\S+) :: (.*)$`).FindAllStringSubmatch(o, -1)
+			for _, c := range cases {
+				rep.StructFails = append(rep.StructFails, StructOb{Name: "bounded/" + bc.Name + ":" + c[1], OK: false, Concrete: true,
+					Detail: "bounded check of the real code failed on case " + c[1] + " (the case is a concrete input, run through the real analyzer by " + src + "):\n" + c[2], Src: src})
+			}
+			if len(cases) == 0 {
+				rep.StructFails = append(rep.StructFails, StructOb{Name: "bounded/" + bc.Name, OK: false, Detail: "bounded check of the real function failed:\n" + tail, Src: src})
+			}
+			res["failed_cases"] = len(cases)
 		} else {
 			res["result"] = "held on every case within the bound"
 		}
